@@ -248,7 +248,13 @@ func (t *Template) HolePositions() []HolePos {
 		if len(ps) == 1 {
 			return ps[0].Class
 		}
-		return "~"
+		var cs []string
+		for _, p := range ps {
+			if p.Hole != "" {
+				cs = append(cs, p.Class)
+			}
+		}
+		return "~" + strings.Join(cs, "+")
 	}
 	for _, tk := range t.Toks {
 		switch tk.Kind {
